@@ -292,6 +292,20 @@ def package_content(ctx) -> None:
     ret = next((r for r in core.walk_local(valid.node) if isinstance(r, ast.Return)), None)
     f = valid.param_names[0]
     ctx.check(ret is not None and f'{f} != descriptor' in core.src(ret.value) and isinstance(ret.value, ast.BoolOp) and isinstance(ret.value.op, ast.And), 'C18.package', valid, 'the tree\'s own descriptor is skipped', valid.node, key='valid:descriptor')
+    # the whole tree is archived: the walk starts at the source root, recurses into every valid directory, writes every valid
+    # file; byte-code caches and dist-info directories are the only other exclusions
+    wa0 = create.nested('writeall')
+    rec = [c for c in core.calls_in(wa0.node) if core.src(c.func) == 'writeall']
+    okr = len(rec) == 1 and [core.src(a) for a in rec[0].args] == ['item', 'archive', 'root']
+    if okr:
+        g = cfg.cguards(rec[0], wa0.node, siblings=True)
+        okr = ('item.is_dir()', True) in g or ('not item.is_dir()', False) in g or ('item.is_dir()', True) in [(t.replace('not ', ''), not p_) for t, p_ in g if t.startswith('not ')]
+    ctx.check(okr, 'C18.package', wa0, 'directories are descended into (recursively, with the same archive and root)', rec[0] if rec else wa0.node, key='writeall:recursion')
+    top = [c for c in core.calls_in(create.node, deep=False) if core.src(c.func) == 'writeall']
+    ctx.check(len(top) == 1 and [core.src(a) for a in top[0].args] == ['pathlib.Path(source)', 'package'], 'C18.package', create, 'the walk starts at the source root and writes into the package being created', top[0] if top else create.node, key='create:walk')
+    if ret is not None and isinstance(ret.value, ast.BoolOp):
+        terms = sorted(core.src(v) for v in ret.value.values)
+        ctx.check(terms == sorted([f"{f}.name != '__pycache__'", f"{f}.suffix != '.dist-info'", f'{f} != descriptor']), 'C18.package', valid, f'the exclusions are exactly byte-code caches, dist-info and the descriptor ({terms})', ret, key='valid:terms')
     text = core.src(create.node)
     ctx.check("descriptor = Manifest.path('.')" in text and 'package.write(Manifest.path(temp), descriptor)' in text, 'C18.package', create, 'the freshly written manifest is stored under the (relative) descriptor name the filter skips', create.node, key='create:descriptor')
 
@@ -335,8 +349,25 @@ def install_guard(ctx) -> None:
     ctx.check(len(ret) == 1 and core.src(ret[0].value) == '_body.Artifact(path, self.manifest.package, **self.manifest.modules)', 'C18.package', inst, 'the artifact is described by the package\'s own manifest (package and module map)', inst.node, key='install:artifact')
 
 
+def manifest_read(ctx) -> None:
+    """Reading a manifest always imports the descriptor module afresh from the given path: the module is evicted from
+    sys.modules on every way out (otherwise the next read - of another package - gets the first one's module back), and the
+    manifest is built from that module's own four attributes."""
+    prog = ctx.prog
+    rd = prog.func(f'{DIST}:Manifest.read')
+    tr = next((x for x in rd.body if isinstance(x, ast.Try)), None)
+    fin = [core.src(x) for x in tr.finalbody] if tr is not None else []
+    dels = [d for x in (tr.finalbody if tr is not None else []) for d in ast.walk(x) if isinstance(d, ast.Delete)]
+    ctx.check(len(dels) == 1 and core.src(dels[0]) == 'del sys.modules[cls.MODULE]' and cfg.cguards(dels[0], rd.node) == [('cls.MODULE in sys.modules', True)], 'C18.manifest', rd, f'the descriptor module is evicted from sys.modules in a finally block ({fin})', tr or rd.node, key='read:evict')
+    ctx.check('module = setup.isolated(cls.MODULE, path)' in core.src(rd.node) and 'cls(module.NAME, module.VERSION, module.PACKAGE, **module.MODULES)' in core.src(rd.node), 'C18.manifest', rd, 'the manifest is built from the isolated import of the descriptor at the given path', rd.node, key='read:fields')
+    inst = prog.func(f'{DIST}:Package.install')
+    sr = [st for st in inst.body if isinstance(st, ast.Expr) and core.src(st.value) == 'setup.search(path)']
+    ctx.check(len(sr) == 1, 'C18.package', inst, 'the installed location is put on the module search path unconditionally (its components must be importable)', inst.node, key='install:search')
+
+
 def run(ctx) -> None:
     from . import C08
+    manifest_read(ctx)
 
     C08.eqhash_agreement(ctx, ('forml.io.asset', 'forml.project'), floor=3)
     C05.gap_free(ctx)
